@@ -61,6 +61,15 @@ CHECKS.update({
    technique="exhaustive hook-fault injection (hook x exception type x invocation index / always) replayed against the silent run of the same answer script; normalised-trace equality",
    text="For every baseline run and each of on_metric, on_log, before_sleep: raise at each single invocation index and always, for 7 exception types; the faulty run must equal the silent run in invocations, sleeps, delivered result, breaker and budget updates and in what the other hook and the timeline received.",
    note="attempt_timeout_s=None; hooks raise subclasses of Exception; one faulty hook per run (two thorough)"),
+
+ "C06": dict(engine="E2 state + E1 seq", cat="model_checking", ref="6 C06",
+   technique="explicit-state BFS over operation histories of the real CircuitBreaker with canonical-state deduplication, compared transition by transition with a list-of-failures reference model (subset construction over boundary conventions)",
+   text="For ~150 (quick) / 216 (thorough) breaker configurations every history of allow/record_success/record_failure(K)/record_cancel/tick up to depth 7 (9 thorough) is explored on the real object; record_failure must report 'opened' exactly when the counted failures within the window reach the global or class threshold, other classes, expired failures, failures before the last transition and successes while closed never change the verdict; policy-level sequences of calls are checked against the same reference.",
+   note="records with no call outstanding in half-open are not generated; boundary ages are don't-cares but must be read consistently along a history; canonical form validated by a differential probe suite on sampled duplicates"),
+ "C10": dict(engine="E2 state + E1 seq", cat="model_checking", ref="6 C10",
+   technique="explicit-state BFS over consume/remaining/tick histories of the real Budget against a list-of-grants reference; sliding-window invariant re-derived from observed grants; shared-budget call sequences through real policies",
+   text="All histories of consume(1)/consume(2)/remaining()/tick to depth 9 (12 thorough) for max_retries 0..3 and two windows: grants are all-or-nothing, refused only when the window is full, capacity returns when grants age out; for every grant instant the number of grants in (t-W, t] never exceeds max_retries. Sync and async policies sharing one budget: every retry is a grant, every BUDGET_EXHAUSTED a real refusal.",
+   note="grant exactly window_s old is a don't-care read consistently; virtual clock"),
 })
 PENDING = {
 }
